@@ -61,6 +61,13 @@ package io
 //@   loop 1 modifies this.buffers[*]
 //@   loop 1 decreases this.jobs - i
 
+//@ func NewWriterWithCtx
+//@   mode int
+//@   props C01 C17 C19
+//@   ensures result1 != nil ==> result0 == nil                                                      #no-writer-on-error
+//@   ensures result1 == nil ==> result0 != nil && fresh(result0) && result0.repW() && result0.buffersOK() && result0.closed == 0 && result0.closing == 0 && result0.finalized == 0 && result0.initialized == 0 && result0.available == 0 && result0.blockID == 0 && result0.streamCloser == os     #rep-established
+//@   modifies ctx[*]
+
 //@ func (*encodingTask) encode
 //@   mode int
 //@   props C07 C08 C17 C01
@@ -204,6 +211,15 @@ package io
 //@   modifies ctx[*]
 //@   loop 1 invariant 0 - 1 <= rangeindex && rangeindex <= len(this.buffers) && len(this.buffers) == 2*this.jobs && this.jobs == tasks
 //@   loop 1 modifies this.buffers[*]
+
+//@ func NewReaderWithCtx
+//@   mode int
+//@   props C01 C17 C19
+//@   ensures result1 != nil ==> result0 == nil                                                      #no-reader-on-error
+//@   ensures result1 == nil ==> result0 != nil && fresh(result0) && result0.repR0() && result0.closed == 0 && result0.initialized == 0 && result0.available == 0 && result0.consumed == 0 && result0.blockID == 0 && result0.streamCloser == is     #rep-established
+//@   ensures result1 == nil && result0.headless ==> result0.repR() && result0.filledOK()            #headerless-ready
+//@   ensures result1 == nil ==> (has(result0.ctx, "from") ==> istype(result0.ctx["from"], "int")) && (has(result0.ctx, "to") ==> istype(result0.ctx["to"], "int"))     #range-options-typed
+//@   modifies ctx[*]
 
 //@ func (*decodingTask) decode
 //@   mode int
